@@ -8,7 +8,7 @@ use std::io::{Cursor, Write};
 use zip::unstable::write::FileOptionsExt;
 use zip::write::FileOptions;
 
-pub struct WriteStream;
+pub struct WriteStream(pub &'static str);
 
 #[derive(Clone, Debug)]
 pub struct Opts {
@@ -104,6 +104,8 @@ pub struct RunOut {
     pub expect: Vec<(Vec<u8>, u16, Option<Vec<u8>>, Option<u32>)>,
     pub finished_ok: bool,
     pub comment: Vec<u8>,
+    /// sink position right after the first successful finish (= end of the rewritten archive)
+    pub end_pos: Option<u64>,
 }
 
 fn close_cur(cur: &mut Option<Cur>, comp: &mut Vec<String>, zc: &mut Vec<String>) {
@@ -130,14 +132,28 @@ fn close_cur(cur: &mut Option<Cur>, comp: &mut Vec<String>, zc: &mut Vec<String>
     }
 }
 
-/// Execute a call list on the real writer.
+/// What the harness needs from a sink besides `Read + Write + Seek`.
+pub trait SinkInfo {
+    fn sink_bytes(&self) -> Vec<u8>;
+    fn pos(&self) -> u64;
+}
+impl SinkInfo for Cursor<Vec<u8>> {
+    fn sink_bytes(&self) -> Vec<u8> { self.get_ref().clone() }
+    fn pos(&self) -> u64 { self.position() }
+}
+
+/// Execute a call list on the real writer over an in-memory cursor.
 pub fn run_calls(calls: &[String], srcs: &[Vec<u8>]) -> RunOut {
-    let mut out = RunOut { tokens: vec![], fin: None, comp: vec![], zc: vec![], expect: vec![], finished_ok: false, comment: vec![] };
-    let mut sink = Cursor::new(Vec::new());
     let first: Vec<&str> = calls[0].split(',').collect();
-    if first[0] == "ap" {
-        sink = Cursor::new(unhex(first[1]).unwrap_or_default());
-    }
+    let sink = if first[0] == "ap" { Cursor::new(unhex(first[1]).unwrap_or_default()) } else { Cursor::new(Vec::new()) };
+    run_calls_sink(calls, srcs, sink)
+}
+
+/// Execute a call list on the real writer over any sink.
+pub fn run_calls_sink<S: std::io::Read + Write + std::io::Seek + SinkInfo>(calls: &[String], srcs: &[Vec<u8>], sink: S) -> RunOut {
+    let mut out = RunOut { tokens: vec![], fin: None, comp: vec![], zc: vec![], expect: vec![], finished_ok: false, comment: vec![], end_pos: None };
+    let mut sink = sink;
+    let first: Vec<&str> = calls[0].split(',').collect();
     let mut src_archives: Vec<Option<zip::ZipArchive<Cursor<Vec<u8>>>>> =
         srcs.iter().map(|b| zip::ZipArchive::new(Cursor::new(b.clone())).ok()).collect();
     let mut panicked = false;
@@ -267,7 +283,7 @@ pub fn run_calls(calls: &[String], srcs: &[Vec<u8>]) -> RunOut {
                         let res = w.finish();
                         close_cur(&mut cur, &mut out.comp, &mut out.zc);
                         pending_expect = None;
-                        match res { Ok(_) => { out.finished_ok = true; "ok".into() } Err(e) => cls_z(&e) }
+                        match res { Ok(sk) => { if !out.finished_ok { out.end_pos = Some(sk.pos()); } out.finished_ok = true; "ok".into() } Err(e) => cls_z(&e) }
                     }
                     "drop" => "ok".into(),   // the writer is dropped when this scope ends; nothing may follow
                     _ => "bad-call".into(),
@@ -286,8 +302,8 @@ pub fn run_calls(calls: &[String], srcs: &[Vec<u8>]) -> RunOut {
             let _ = std::panic::catch_unwind(std::panic::AssertUnwindSafe(|| drop(w)));
         }
     }
-    if let Some(p) = early { return finish_out(out, sink.into_inner(), p); }
-    finish_out(out, sink.into_inner(), panicked)
+    if let Some(p) = early { return finish_out(out, sink.sink_bytes(), p); }
+    finish_out(out, sink.sink_bytes(), panicked)
 }
 
 fn finish_out(mut out: RunOut, bytes: Vec<u8>, panicked: bool) -> RunOut {
@@ -409,9 +425,11 @@ fn small_source(r: &mut Rng) -> Vec<u8> {
 }
 
 impl Stream for WriteStream {
-    fn name(&self) -> &'static str { "write" }
+    fn name(&self) -> &'static str { self.0 }
 
     fn gen(&self, seed: u64, tier: &str) -> GenOut {
+        if self.0 == "append" { return gen_append(seed, tier); }
+        if self.0 == "rawcopy" { return gen_rawcopy(seed, tier); }
         let mut g = GenOut::default();
         g.rule = "random sequences of ZipWriter calls (start_file/with_extra_data/aligned, write, end_local/end_extra, add_directory, add_symlink, set_comment, raw copy from source archives, new_append on base archives, finish/drop, plus misuse: stray writes, end_extra without begin, reserved/truncated extra data, bad levels, calls after finish); model bytes must equal implementation bytes (compressed payloads supplied by calling the codec libraries directly). distinct = distinct op lines; non-trivial = finish/drop reached with at least one entry".into();
         let n = if tier == "thorough" { 40_000 } else { 1_500 };
@@ -452,7 +470,10 @@ impl Stream for WriteStream {
         // implementation-only round trip: whatever finish() produced must read back as what was written
         let (_, a) = parse_line(line);
         let calls: Vec<String> = a.get("calls").map(|c| c.split(';').map(|s| s.to_string()).collect()).unwrap_or_default();
-        if calls.is_empty() || calls[0] != "new" { return f; }
+        if calls.is_empty() { return f; }
+        if calls[0].starts_with("ap,") { return oracle_append(&calls, &parse_srcs(&a)); }
+        if calls.iter().any(|c| c.starts_with("rc,")) { f.extend(oracle_rawcopy(&calls, &parse_srcs(&a))); }
+        if calls[0] != "new" { return f; }
         let srcs = parse_srcs(&a);
         let ro = run_calls(&calls, &srcs);
         if !ro.finished_ok { return f; }
@@ -506,4 +527,194 @@ impl Stream for WriteStream {
 /// the plaintext comparison of encrypted payloads in the oracle: any password in the line disables it)
 fn line_entry_encrypted(calls: &[String], _i: usize) -> bool {
     calls.iter().any(|c| (c.starts_with("sf,") || c.starts_with("sym,")) && !c.ends_with(",n") && c.split(',').last().map(|p| p != "n").unwrap_or(false))
+}
+
+// ---------------------------------------------------------------------------------------------
+// C13: append
+
+/// (name, method, crc of decoded content or of raw bytes when undecodable, size, mode, time) per entry
+fn listing(bytes: &[u8]) -> Result<(Vec<(String, u16, String, u64, Option<u32>, (u16, u8, u8, u8, u8, u8))>, Vec<u8>), String> {
+    use std::io::Read;
+    let mut a = zip::ZipArchive::new(Cursor::new(bytes.to_vec())).map_err(|e| cls_z(&e))?;
+    let mut v = vec![];
+    for i in 0..a.len() {
+        let (name, m, size, mode, t) = {
+            let f = a.by_index_raw(i).map_err(|e| cls_z(&e))?;
+            #[allow(deprecated)]
+            let m = f.compression().to_u16();
+            let t = f.last_modified();
+            (f.name().to_string(), m, f.size(), f.unix_mode(), (t.year(), t.month(), t.day(), t.hour(), t.minute(), t.second()))
+        };
+        let content = match a.by_index(i) {
+            Ok(mut f) => { let mut b = vec![]; match f.read_to_end(&mut b) { Ok(_) => format!("ok:{}:{}", crc32fast::hash(&b), b.len()), Err(e) => cls_io(&e) } }
+            Err(e) => cls_z(&e),
+        };
+        v.push((name, m, content, size, mode, t));
+    }
+    Ok((v, a.comment().to_vec()))
+}
+
+fn oracle_append(calls: &[String], srcs: &[Vec<u8>]) -> Vec<OracleFailure> {
+    let mut f = vec![];
+    let base = unhex(&calls[0][3..]).unwrap_or_default();
+    let before = match catch({ let b = base.clone(); move || listing(&b) }) { Ok(Ok(l)) => l, _ => return f };
+    let ro = run_calls(calls, srcs);
+    if !ro.finished_ok { return f; }
+    // the archive is what the first successful finish left in the sink
+    let bytes = match &ro.fin { Some(b) => b.clone(), None => return f };
+    // The writer cannot truncate its sink: when the rewritten directory + end records end before the old
+    // end of file, stale bytes of the old archive (possibly its whole end record) follow the new one.
+    let stale = ro.end_pos.map(|p| (bytes.len() as u64).saturating_sub(p)).unwrap_or(0);
+    let after = match catch({ let bytes = bytes.clone(); move || listing(&bytes) }) {
+        Ok(Ok(l)) => l,
+        Ok(Err(e)) => {
+            if stale > 0 { f.push(OracleFailure { what: format!("D14 append-leaves-stale-tail: the rewritten archive ends {stale} bytes before the old end of file and the stale tail makes it unreadable ({e})") }); }
+            else { f.push(OracleFailure { what: format!("append: finish() succeeded but the result does not open: {e}") }); }
+            return f;
+        }
+        Err(_) => { f.push(OracleFailure { what: "append: panic while reading the result".into() }); return f; }
+    };
+    // encrypted base entries cannot be listed without a password: their content field is an error class on both sides
+    if after.0.len() != before.0.len() + ro.expect.len() {
+        f.push(OracleFailure { what: format!("append: {} entries before, {} creations succeeded, {} entries after", before.0.len(), ro.expect.len(), after.0.len()) });
+        return f;
+    }
+    for (i, (b, a)) in before.0.iter().zip(after.0.iter()).enumerate() {
+        if b != a { f.push(OracleFailure { what: format!("append: existing entry {i} changed: {:?} -> {:?}", b, a) }); }
+    }
+    let set_comment = calls.iter().any(|c| c.starts_with("c,"));
+    let want_comment = if set_comment { ro.comment.clone() } else { before.1.clone() };
+    if after.1 != want_comment { f.push(OracleFailure { what: "append: archive comment neither kept nor replaced as requested".into() }); }
+    for (k, (name, m, plain, _mode)) in ro.expect.iter().enumerate() {
+        let a = &after.0[before.0.len() + k];
+        if a.0.as_bytes() != &name[..] || a.1 != *m { f.push(OracleFailure { what: format!("append: new entry {k} name/method differ") }); }
+        if let Some(p) = plain {
+            let enc = line_entry_encrypted(calls, k);
+            if !enc && a.2 != format!("ok:{}:{}", crc32fast::hash(p), p.len()) { f.push(OracleFailure { what: format!("append: new entry {k} content differs: {}", a.2) }); }
+        }
+    }
+    f
+}
+
+fn foreign_base(r: &mut Rng) -> Vec<u8> {
+    let (mut l, _) = super::read::rand_layout(r);
+    // appendable bases: this crate's reader must open them; keep names ASCII so that re-emitted central
+    // records carry the same name bytes (foreign CP437 names are observation K-A in DESIGN.md)
+    for e in l.entries.iter_mut() { e.flags &= !1; if e.method == 99 { e.method = 0; } e.name.retain(|b| *b < 0x80); }
+    l.trailing.clear();
+    crate::mkzip::build(&l).bytes
+}
+
+fn gen_append(seed: u64, tier: &str) -> GenOut {
+    let mut g = GenOut::default();
+    g.rule = "histories write -> (append k_i entries)* : base archives from this crate's writer, from the independent builder (prefix, descriptors, ZIP64 records, made-by variants) and from earlier rounds; 0..R rounds (R = 4 quick, 12 thorough), every method, comment changes between rounds, append-nothing rounds; each round is one op line whose base is the previous round's output. non-trivial = the round finished and the base had at least one entry".into();
+    let (n, rounds) = if tier == "thorough" { (4000, 12) } else { (220, 4) };
+    for i in 0..n {
+        let mut r = super::rng_for(seed, "append", i);
+        let mut base = match r.below(3) { 0 => foreign_base(&mut r), _ => small_source(&mut r) };
+        let nr = r.range(1, rounds);
+        for round in 0..nr {
+            let srcs: Vec<Vec<u8>> = if r.chance(1, 4) { vec![small_source(&mut r)] } else { vec![] };
+            let mut calls = rand_calls(&mut r, &srcs, Some(&base), false);
+            if r.chance(1, 5) { calls.truncate(1); calls.push("fin".into()); }           // append nothing
+            // make sure the round finishes explicitly so the next round has a base
+            if calls.last().map(|c| c == "drop").unwrap_or(false) { let k = calls.len() - 1; calls[k] = "fin".into(); }
+            let line = make_line(&calls, &srcs);
+            g.push(if round == 0 { "round0" } else { "later-round" }, line);
+            let ro = run_calls(&calls, &srcs);
+            match (ro.finished_ok, ro.fin) { (true, Some(b)) => base = b, _ => break }
+        }
+    }
+    g
+}
+
+// ---------------------------------------------------------------------------------------------
+// C14: raw copy
+
+fn oracle_rawcopy(calls: &[String], srcs: &[Vec<u8>]) -> Vec<OracleFailure> {
+    use std::io::Read;
+    let mut f = vec![];
+    let ro = run_calls(calls, srcs);
+    if !ro.finished_ok { return f; }
+    let bytes = match &ro.fin { Some(b) => b.clone(), None => return f };
+    let nbase = if calls[0].starts_with("ap,") { match listing(&unhex(&calls[0][3..]).unwrap_or_default()) { Ok(l) => l.0.len(), Err(_) => return f } } else { 0 };
+    // map successful rc calls to destination indices: replay the bookkeeping of run_calls
+    let mut dest = nbase;
+    let mut checks: Vec<(usize, usize, usize)> = vec![];   // (dest index, src archive, src entry)
+    for (call, tok) in calls[1..].iter().zip(ro.tokens[1..].iter()) {
+        let x: Vec<&str> = call.split(',').collect();
+        let created = matches!(x[0], "sf" | "sx" | "sa" | "dir" | "sym" | "rc") && (tok == "ok" || tok.starts_with("ok="));
+        // start_file_aligned pushes its entry even when it later fails; count what the archive holds instead
+        if x[0] == "rc" && tok == "ok" { checks.push((dest, x[1].parse().unwrap_or(0), x[2].parse().unwrap_or(0))); }
+        if created { dest += 1; }
+        if x[0] == "fin" && tok == "ok" { break; }
+    }
+    let r = catch({
+        let srcs = srcs.to_vec();
+        move || -> Vec<String> {
+            let mut out = vec![];
+            let mut a = match zip::ZipArchive::new(Cursor::new(bytes)) { Ok(a) => a, Err(e) => return vec![format!("rawcopy: result does not open: {}", cls_z(&e))] };
+            if a.len() != dest { return vec![]; }   // bookkeeping mismatch (an aligned start that failed half-way): covered by the general oracle
+            for (di, si, ei) in checks {
+                let mut s = match zip::ZipArchive::new(Cursor::new(srcs[si].clone())) { Ok(s) => s, Err(_) => continue };
+                let (sraw, smeta) = {
+                    let mut sf = match s.by_index_raw(ei) { Ok(f) => f, Err(_) => continue };
+                    let mut b = vec![]; let _ = sf.read_to_end(&mut b);
+                    let t = sf.last_modified();
+                    #[allow(deprecated)]
+                    (b, (sf.compression().to_u16(), sf.crc32(), sf.size(), sf.compressed_size(), (t.year(), t.month(), t.day(), t.hour(), t.minute(), t.second()), sf.unix_mode()))
+                };
+                let mut df = match a.by_index_raw(di) { Ok(f) => f, Err(e) => { out.push(format!("rawcopy: destination entry {di}: {}", cls_z(&e))); continue } };
+                let mut draw = vec![]; let _ = df.read_to_end(&mut draw);
+                let t = df.last_modified();
+                #[allow(deprecated)]
+                let dmeta = (df.compression().to_u16(), df.crc32(), df.size(), df.compressed_size(), (t.year(), t.month(), t.day(), t.hour(), t.minute(), t.second()), df.unix_mode());
+                if draw != sraw { out.push(format!("rawcopy: destination entry {di} raw bytes differ from the source's ({} vs {} bytes)", draw.len(), sraw.len())); }
+                // mode: kept whole; a source without a Unix mode gets the writer's default regular-file mode
+                let want_perm = smeta.5.or(Some(0o100644));
+                if (dmeta.0, dmeta.1, dmeta.2, dmeta.3, dmeta.4) != (smeta.0, smeta.1, smeta.2, smeta.3, smeta.4) { out.push(format!("rawcopy: destination entry {di} metadata {:?} != source {:?}", dmeta, smeta)); }
+                if dmeta.5 != want_perm {
+                    if smeta.5 == Some(0) && dmeta.5.is_none() {
+                        out.push(format!("K-D rawcopy-mode-zero: source entry reports Unix mode 0 (attributes set, but no type and no permission bits); the copy's external attributes are 0, so it reports no mode (destination entry {di})"));
+                    } else {
+                        out.push(format!("rawcopy: destination entry {di} mode {:?} != {:?}", dmeta.5, want_perm));
+                    }
+                }
+            }
+            out
+        }
+    });
+    match r { Ok(v) => for w in v { f.push(OracleFailure { what: w }); }, Err(_) => f.push(OracleFailure { what: "rawcopy: panic while comparing".into() }) }
+    f
+}
+
+fn gen_rawcopy(seed: u64, tier: &str) -> GenOut {
+    let mut g = GenOut::default();
+    g.rule = "raw copies of unencrypted source entries (every method incl. ones the crate cannot decode, empty, descriptor sources from the independent builder, renamed or same name) interleaved with ordinary entries; copy as first / last / only entry. non-trivial = at least one raw copy succeeded and finish succeeded".into();
+    let n = if tier == "thorough" { 25_000 } else { 1_000 };
+    for i in 0..n {
+        let mut r = super::rng_for(seed, "rawcopy", i);
+        let nsrc = r.range(1, 2) as usize;
+        let srcs: Vec<Vec<u8>> = (0..nsrc).map(|_| if r.chance(1, 2) { small_source(&mut r) } else {
+            let (mut l, _) = super::read::rand_layout(&mut r);
+            for e in l.entries.iter_mut() { e.flags &= !1; if r.chance(1, 6) { e.method = *r.pick(&[1u16, 9, 14, 95]); } }
+            crate::mkzip::build(&l).bytes }).collect();
+        let mut calls = vec!["new".to_string()];
+        let k = r.range(1, 5);
+        for _ in 0..k {
+            if r.chance(3, 5) {
+                let si = r.below(srcs.len() as u64);
+                let nm = if r.chance(1, 2) { "same".to_string() } else { hex(&rand_utf8_name(&mut r)) };
+                calls.push(format!("rc,{},{},{}", si, r.below(4), nm));
+            } else if r.chance(1, 2) {
+                calls.push(format!("sf,{},{}", hex(&rand_utf8_name(&mut r)), rand_opts(&mut r, false).tok()));
+                calls.push(format!("w,{}", hex(&rand_content(&mut r))));
+            } else {
+                calls.push(format!("dir,{},{}", hex(&rand_utf8_name(&mut r)), rand_opts(&mut r, false).tok()));
+            }
+        }
+        calls.push("fin".into());
+        g.push("rawcopy", make_line(&calls, &srcs));
+    }
+    g
 }
